@@ -5,10 +5,20 @@ use super::{check, RunFn, WireType};
 use smoltcp::wire::*;
 use svh::*;
 
+#[path = "oracle_c06_types2.rs"]
+mod types2;
+
 pub fn all() -> Vec<(&'static str, RunFn)> {
+    let mut v = all1();
+    v.extend(types2::all());
+    v
+}
+
+fn all1() -> Vec<(&'static str, RunFn)> {
     vec![
         ("sixlowpan-udpnhc", check::<UdpNhc>),
         ("sixlowpan-iphc", check::<Iphc>),
+        ("sixlowpan-iphc-tf", check::<IphcTf>),
         ("dns", check::<Dns>),
         ("icmpv4", check::<Icmp4>),
         ("icmpv6", check::<Icmp6>),
@@ -269,6 +279,41 @@ impl WireType for Iphc {
             dscp: None,
             flow_label: None,
         })
+    }
+}
+
+/// IPHC representations that carry traffic-class / flow-label values (`ecn`, `dscp`, `flow_label` = Some):
+/// `Repr::emit` always elides the TF field (the FIXME in the source), so they do not round-trip.
+/// Listed in known_findings.txt (class sixlowpan-iphc-tf-roundtrip-mismatch).
+pub struct IphcTf;
+impl WireType for IphcTf {
+    type R = SixlowpanIphcRepr;
+    const NAME: &'static str = "sixlowpan-iphc-tf";
+    fn gen(r: &mut Rng, tier: &str) -> SixlowpanIphcRepr {
+        let mut x = Iphc::gen(r, tier);
+        // the three combinations parse produces / buffer_len accepts: TF = 00, 01, 10
+        x.ecn = Some(r.below(4) as u8);
+        match r.below(3) {
+            0 => {
+                x.dscp = Some(r.below(64) as u8);
+                x.flow_label = Some(gen_u16(r));
+            }
+            1 => x.flow_label = Some(gen_u16(r)),
+            _ => x.dscp = Some(r.below(64) as u8),
+        }
+        x
+    }
+    fn buffer_len(x: &SixlowpanIphcRepr) -> usize {
+        x.buffer_len()
+    }
+    fn emit(x: &SixlowpanIphcRepr, buf: &mut [u8]) {
+        Iphc::emit(x, buf)
+    }
+    fn parse(buf: &[u8], c: &SixlowpanIphcRepr) -> Option<SixlowpanIphcRepr> {
+        Iphc::parse(buf, c)
+    }
+    fn wf(_x: &SixlowpanIphcRepr) -> bool {
+        false // only the direct round trip of the generated repr is of interest here
     }
 }
 
